@@ -36,6 +36,10 @@ def _once(rep, seen, key, ok, rule, cons, why, **kw):
 
 def check_run(model, rep):
     rm = run_model(model)
+    for ln, text in sorted(set(rm.ir.sx.identity_compares)):
+        rep.violation('C12.cont', 'Solver.run:identity-test', f'`{text}` compares two numbers by object identity: the outcome depends on CPython\'s '
+                      f'small-integer cache (history longer than 256 instants), so a continuation differs from the single run',
+                      f'{rm.member.module}:{ln}')
     ctx = rm.ir.ctx
     mod = rm.member.module
     params = run_params(rm)
